@@ -5,6 +5,8 @@ import (
 	"math/rand"
 	"strings"
 
+	"github.com/truora/minidyn/interpreter"
+
 	"verifharness/adapt"
 	"verifharness/mon"
 	"verifharness/refmodel"
@@ -447,10 +449,25 @@ func (p *c13) malformed(x *res, adapter string, ctx *runner.Ctx) {
 	spec := mon.SpecHashRange("tbl13")
 	// (a global index, for the reads that continue THROUGH an index: their start key is a key of the index AND of the table)
 	spec.Indexes = []adapt.IndexSpec{{Name: "gsi", Hash: "g", Range: "s"}}
+	// every entry once with the expression language, and the writes that carry expressions once more with the native
+	// interpreter active (nothing registered): a malformed key is a validation error before anybody looks for callbacks
+	list := append([]c13Malformed{}, c13MalformedList...)
+	nativeFrom := len(list)
 	for _, mf := range c13MalformedList {
+		if strings.HasPrefix(mf.op, "update") || strings.Contains(mf.op, "-cond-") {
+			list = append(list, mf)
+		}
+	}
+	for mi, mf := range list {
 		cl, _, ds := freshClient(adapter, spec)
 		if ds != nil {
 			return
+		}
+		if mi >= nativeFrom {
+			nc := nativeOf(cl)
+			nc.setInterp(interpreter.NewNativeInterpreter())
+			nc.activate()
+			x.r.Counters["malformed_keys_in_native_mode"]++
 		}
 		good := val.Item{"h": val.Str("a"), "r": val.Str("b"), "v": val.Num("1"), "g": val.Str("x"), "s": val.Str("y")}
 		cl.Do(adapt.Op{Kind: adapt.OpPut, Table: spec.Name, Item: good})
@@ -546,7 +563,7 @@ func (p *c13) malformed(x *res, adapter string, ctx *runner.Ctx) {
 		ctx.Trace("%s malformed %s", adapter, op.String())
 		got := cl.Do(op)
 		x.r.Evals++
-		x.fp(true, "malformed|%s|%s|%s", adapter, mf.op, mf.defect)
+		x.fp(true, "malformed|%s|%s|%s|%v", adapter, mf.op, mf.defect, mi >= nativeFrom)
 		x.set("classes", got.Class)
 		if got.Class == adapt.ClsNotImpl {
 			continue
